@@ -12,11 +12,16 @@ from .. import vloop, acdev, landev
 
 
 class Scripted(acdev.ACModel):
+    """Answers every command with self.replies; self.script (list of reply lists) takes precedence, one entry per exchange."""
+
     def __init__(self):
         super().__init__()
         self.replies = []
+        self.script = []
 
     def handle(self, f):
+        if self.script:
+            return list(self.script.pop(0))
         return list(self.replies)
 
 
@@ -30,6 +35,20 @@ def sample_frames(rng):
         out["props", style] = acdev.resp_frame(3, bytes([0xB1, 2, 0x09, 0, 0, 1, 25, 0x42, 0, 0, 1, 2, rng.randrange(256)]), style)
         out["energy", style] = acdev.resp_frame(3, bytes([0xC1, 0x21, 0x01, 0x44, 0, 0, 0x12, 0x34, 0, 0, 0, 0, 0, 0, 0, 0x56, 0, 7, 0x89, 0]), style)
         out["humidity", style] = acdev.resp_frame(3, bytes([0xC1, 0x21, 0x01, 0x45, rng.randrange(1, 100), 0, 0, 0]), style)
+    # the same kinds once more with a body check byte at its boundary values 0x00 / 0xFF (searched for, not forced)
+    for style in ("crc", "sum"):
+        for want in (0x00, 0xFF):
+            for _ in range(4000):
+                st2 = dict(st, t2=rng.randrange(34, 61), indoor=rng.randrange(256), outdoor=rng.randrange(256), fan=rng.randrange(1, 103), hum=rng.randrange(101))
+                f = acdev.resp_frame(3, acdev.encode_state(st2, 24), style)
+                if f[-2] == want:
+                    out["state", style + "/check%02x" % want] = f
+                    break
+            for _ in range(4000):
+                f = acdev.resp_frame(3, bytes([0xC1, 0x21, 0x01, 0x45, rng.randrange(1, 100), rng.randrange(256), rng.randrange(256), rng.randrange(256)]), style)
+                if f[-2] == want:
+                    out["humidity", style + "/check%02x" % want] = f
+                    break
     return out
 
 
@@ -72,6 +91,16 @@ def cases(ctx: Ctx):
                             subs.add(x)
                 for sub in sorted(subs):
                     out.append((kind, style, f, pos, sub, True))
+    # the length byte set to every smaller / slightly larger value, on many different valid frames (no fix-up)
+    rng = ctx.rng
+    for j in range(ctx.pick(70, 600)):
+        st = dict(acdev.DEFAULT_STATE, power=rng.random() < .5, t2=rng.randrange(34, 61), mode=rng.randrange(1, 6), fan=rng.randrange(1, 103),
+                  indoor=rng.randrange(256), outdoor=rng.randrange(256), in_tenths=rng.randrange(10), hum=rng.randrange(101))
+        style = "crc" if j % 2 else "sum"
+        f = acdev.resp_frame(3, acdev.encode_state(st, rng.choice([20, 22, 24, 24, 30])), style)
+        for sub in range(0, f[1] + 4):
+            if sub != f[1]:
+                out.append(("state", style, f, 1, sub, False))
     return out
 
 
@@ -91,7 +120,10 @@ def collect(ctx: Ctx, cs):
         for k, (kind, style, f, pos, sub, fix) in enumerate(cs):
             d = AC(ip="10.0.0.1", port=6444, device_id=k)
             hist = k % 3 != 0
-            if hist:                       # history: a valid exchange first (so state/online/supported are non-default)
+            if k % 3 == 2:                 # history: the ORIGINAL of the corrupted frame was accepted earlier by this very device object ...
+                ac.replies = [f]
+                await d.refresh()
+            if hist:                       # ... and a different valid exchange after it (so state/online/supported are non-default)
                 ac.replies = [good_state]
                 await d.refresh()
             before = d.to_dict()
